@@ -24,6 +24,8 @@ Q keq_q(Q T) { Q c0(g_cb[0]), c1(g_cb[1]), c2(g_cb[2]);
   if (g_cb_kind == 1) return c0 * exp(c1 * log(T)) * exp(-c2 / T);
   Q s = T / Q(1000); return c0 + c1 * s + c2 * s * s; }
 
+static std::vector<Q> g_vec; const std::vector<Q> &current_vec() { return g_vec; } void set_current_vec(const std::vector<Q> &v) { g_vec = v; }
+
 // ------------------------------------------------------------------ generator helpers
 static long double band(Draw &d) { long double v = d.U(0.5L, 2.0L); return d.coin(0.3) ? -v : v; }
 static long double pband(Draw &d) { return d.U(0.5L, 2.0L); }
@@ -358,6 +360,75 @@ static std::vector<Spec> build() {
       long double a, b; { Quiet q; if (c.prec) { a = masa_eval_source_rho_N<long double>(c.pt[0], &keq_ld); b = masa_eval_source_rho_N2<long double>(c.pt[0], &keq_ld); } else { a = masa_eval_source_rho_N<double>((double)c.pt[0], &keq_d); b = masa_eval_source_rho_N2<double>((double)c.pt[0], &keq_d); } }
       Outcome o; o.label = "closure:Q_N+Q_N2"; o.lib = a + b; o.ref = Q(div.v, qn.m + qn2.m + div.m); long double eps = c.prec ? LDBL_EPSILON : DBL_EPSILON;
       o.err = (double)(fabsq((__float128)a + (__float128)b - div.v) / o.ref.m) / eps; o.status = (o.err <= K && std::isfinite(o.err)) ? 0 : 1; o.note = "sum of species sources vs d(rho u)/dx"; out.push_back(o); };
+    S.push_back(s);
+  }
+  // ================================================================ C08 Sod shock tube, conjugate normal
+  {
+    Spec s; s.name = "sod_1d"; s.props = {"C08", "C09"}; s.nargs = 2;
+    s.gen = [](Draw &d, PV &p, bool) { long double g = d.coin(0.3) ? d.logU(1.05L, 3.0L) : d.U(1.05L, 3.0L); p["Gamma"] = g; p["mu"] = (g - 1) / (g + 1); };   // mu is documented as (Gamma-1)/(Gamma+1)
+    // points are drawn per region of the exact wave structure, a relative distance >= 1e-6 away from the five wave speeds
+    s.genpt = [](Draw &d, long double *pt, const PV &p) { SodExact e; e.solve((__float128)(long double)p.at("Gamma"));
+      long double cl = (long double)e.cl, vt = (long double)e.vt, um = (long double)e.um, vs = (long double)e.vs; long double xi; int reg = d.range(0, 4); long double u = d.U(0.02L, 0.98L);
+      if (reg == 0) xi = -cl - d.logU(1e-5L, 3.0L); else if (reg == 1) xi = -cl + u * (vt + cl); else if (reg == 2) xi = vt + u * (um - vt); else if (reg == 3) xi = um + u * (vs - um); else xi = vs + d.logU(1e-5L, 3.0L);
+      long double t = d.logU(0.05L, 5.0L); pt[0] = xi * t; pt[1] = t; };
+    auto sodref = [](const PM &p, const Q *x, int what) -> Q { SodExact e; e.solve(par(p, "Gamma").v); __float128 rho, u, pr; e.at(x[0].v, x[1].v, rho, u, pr); __float128 v = what ? rho * u : rho;
+      // scale: the bisection resolves p* to a few eps; (1 - p*^((G-1)/2G)) * 2 c/(G-1) amplifies by 2/(G-1)
+      __float128 amp = 1 + 2 / (e.g - 1); return Q(v, (fabsq(v) > 1 ? fabsq(v) : 1) * amp); };
+    auto nearfront = [](const PM &p, const Q *x) { SodExact e; e.solve(par(p, "Gamma").v); __float128 xi = x[0].v / x[1].v; for (__float128 w : {-e.cl, e.vt, e.um, e.vs}) if (fabsq(xi - w) < 1e-6Q * (1 + fabsq(w))) return true; return false; };
+    { Ev e = EV("source_rho", 0, masa_eval_source_rho, A2, return sodref(p, x, 0);); e.skip = nearfront; s.evals.push_back(e); }
+    { Ev e = EV("source_rho_u", 0, masa_eval_source_rho_u, A2, return sodref(p, x, 1);); e.skip = nearfront; s.evals.push_back(e); }
+    // the reference is itself checked against the relations the property names
+    s.relations = [](const NumCase &c, const PM &p, std::vector<Outcome> &out, double) { SodExact e; e.solve(par(p, "Gamma").v); typedef __float128 F; F g = e.g;
+      F ps = e.pm, us = e.um;
+      F rh_mass = e.rmr * (us - e.vs) - e.rr * (0 - e.vs);
+      F rh_mom = e.rmr * (us - e.vs) * us + ps - e.pr;
+      F rh_en = (g / (g - 1) * ps / e.rmr + (us - e.vs) * (us - e.vs) / 2) - (g / (g - 1) * e.pr / e.rr + e.vs * e.vs / 2);   // total enthalpy in the shock frame
+      F isen = ps / powq(e.rml, g) - e.pl / powq(e.rl, g);
+      F riem = us + 2 * sqrtq(g * ps / e.rml) / (g - 1) - 2 * e.cl / (g - 1);
+      F tail = e.vt - (us - sqrtq(g * ps / e.rml));
+      F worst = 0; for (F r : {rh_mass, rh_mom, rh_en, isen, riem, tail}) if (fabsq(r) > worst) worst = fabsq(r);
+      Outcome o; o.label = "reference:Rankine-Hugoniot,isentropic,Riemann-invariant,contact"; o.lib = (long double)worst; o.ref = Q(0); o.err = (double)(worst / 1e-28Q); o.status = worst < 1e-28Q * (1 + 2 / (g - 1)) * 100 ? 0 : 1; o.note = "validity predicates of the binary128 reference solution"; out.push_back(o); };
+    S.push_back(s);
+  }
+  {
+    Spec s; s.name = "cp_normal"; s.props = {"C08", "C09"}; s.nargs = 1;
+    s.gen = [](Draw &d, PV &p, bool sweep) { long double m = d.U(0.1L, 20.0L) * sweepf(d, sweep, 0.3); p["m"] = d.coin(0.4) ? -m : m; p["sigma"] = d.logU(0.05L, 50.0L); p["sigma_d"] = d.logU(0.05L, 50.0L); };
+    s.genvec = [](Draw &d, std::vector<long double> &v) { int n = d.range(1, 40); long double centre = d.U(-20.0L, 20.0L), spread = d.logU(0.01L, 30.0L); v.clear(); for (int i = 0; i < n; i++) v.push_back(centre + spread * d.U(-1.0L, 1.0L)); };
+    // x within a few posterior / prior standard deviations so that the densities are not underflowing
+    s.genpt = [](Draw &d, long double *pt, const PV &p) { long double c = d.coin(0.5) ? p.at("m") : 0.0L; pt[0] = c + p.at("sigma") * d.U(-4.0L, 4.0L); };
+    struct CP { static Q mean() { Q s(0); for (auto &v : current_vec()) s = s + v; return s / Q((long double)current_vec().size()); }
+      static Q n() { return Q((long double)current_vec().size()); }
+      static Q var_p(const PM &p) { return Q(1) / (Q(1) / (par(p, "sigma") * par(p, "sigma")) + n() / (par(p, "sigma_d") * par(p, "sigma_d"))); }
+      static Q mean_p(const PM &p) { return var_p(p) * (par(p, "m") / (par(p, "sigma") * par(p, "sigma")) + n() * mean() / (par(p, "sigma_d") * par(p, "sigma_d"))); }
+      static Q normal(Q x, Q mu, Q var) { Q d = x - mu; return exp(-(d * d) / (Q(2) * var)) / sqrt(Q(2) * qpi() * var); } };
+    // history: the data vector is set first; the posterior moments are asked for BEFORE any density has been evaluated
+    { Ev e; e.kind = 0; e.label = "posterior_mean"; e.ld = [](const long double *) { return masa_eval_posterior_mean<long double>(); }; e.d = [](const double *) { return masa_eval_posterior_mean<double>(); }; e.ref = [](const PM &p, const Q *) { return CP::mean_p(p); }; s.evals.push_back(e); }
+    { Ev e; e.kind = 0; e.label = "posterior_variance"; e.ld = [](const long double *) { return masa_eval_posterior_variance<long double>(); }; e.d = [](const double *) { return masa_eval_posterior_variance<double>(); }; e.ref = [](const PM &p, const Q *) { return CP::var_p(p); }; s.evals.push_back(e); }
+    s.evals.push_back(EV("prior", 0, masa_eval_prior, A1, return CP::normal(x[0], par(p, "m"), par(p, "sigma") * par(p, "sigma"));));
+    s.evals.push_back(EV("likelyhood", 0, masa_eval_likelyhood, A1, Q d = x[0] - CP::mean(); return exp(-(CP::n() * d * d) / (Q(2) * par(p, "sigma_d") * par(p, "sigma_d")));));
+    s.evals.push_back(EV("loglikelyhood", 0, masa_eval_loglikelyhood, A1, Q d = x[0] - CP::mean(); return -(CP::n() * d * d) / (Q(2) * par(p, "sigma_d") * par(p, "sigma_d"));));
+    s.evals.push_back(EV("posterior", 0, masa_eval_posterior, A1, return CP::normal(x[0], CP::mean_p(p), CP::var_p(p));));
+    { Ev e; e.kind = 0; e.label = "posterior_mean(after densities)"; e.ld = [](const long double *) { return masa_eval_posterior_mean<long double>(); }; e.d = [](const double *) { return masa_eval_posterior_mean<double>(); }; e.ref = [](const PM &p, const Q *) { return CP::mean_p(p); }; s.evals.push_back(e); }
+    for (int k = 0; k <= 20; k++) { Ev e; e.kind = 0; e.label = "central_moment[" + std::to_string(k) + "]";
+      e.ld = [k](const long double *) { return masa_eval_central_moment<long double>(k); }; e.d = [k](const double *) { return masa_eval_central_moment<double>(k); };
+      e.ref = [k](const PM &p, const Q *) { if (k % 2) return Q(0); Q r(1); for (int j = k - 1; j >= 1; j -= 2) r = r * Q((long double)j); Q sg = par(p, "sigma"); for (int j = 0; j < k; j++) r = r * sg; return r; }; s.evals.push_back(e); }
+    // relations that do not presuppose the closed forms: unit mass of prior and posterior (trapezoidal rule, spectrally accurate
+    // for Gaussians), posterior / (likelihood * prior) independent of x, loglikelihood = log(likelihood)
+    s.relations = [](const NumCase &c, const PM &p, std::vector<Outcome> &out, double K) {
+      auto ev = [&](int which, long double x) -> long double { Quiet q; if (c.prec) { switch (which) { case 0: return masa_eval_prior<long double>(x); case 1: return masa_eval_posterior<long double>(x); case 2: return masa_eval_likelyhood<long double>(x); default: return masa_eval_loglikelyhood<long double>(x); } }
+        switch (which) { case 0: return masa_eval_prior<double>((double)x); case 1: return masa_eval_posterior<double>((double)x); case 2: return masa_eval_likelyhood<double>((double)x); default: return masa_eval_loglikelyhood<double>((double)x); } };
+      long double eps = c.prec ? LDBL_EPSILON : DBL_EPSILON; Hasher h; for (auto &kv : c.params) h.ld(kv.second);
+      if ((h.h >> 8) % 4 == 0) {   // one case in four: quadrature costs 600 evaluations per density
+        long double cen[2] = {(long double)par(p, "m").v, (long double)CP::mean_p(p).v}, sd[2] = {(long double)par(p, "sigma").v, sqrtl((long double)CP::var_p(p).v)};
+        for (int w = 0; w < 2; w++) { const int N = 300; long double hh = 12.0L * sd[w] / N, sum = 0; for (int i = -N; i <= N; i++) sum += ev(w, cen[w] + i * hh) * hh;
+          Outcome o; o.label = w ? "integral(posterior)" : "integral(prior)"; o.lib = sum; o.ref = Q(1.0L); o.err = (double)(fabsl(sum - 1.0L) / eps / 4000); o.status = fabsl(sum - 1.0L) < 4000 * K * eps ? 0 : 1; o.note = "trapezoidal rule over +-12 standard deviations, 601 nodes"; out.push_back(o); } }
+      // proportionality: ratio post/(lik*prior) at two points near the posterior mean agree (the closed forms supply the SCALE only)
+      { long double mp = (long double)CP::mean_p(p).v, sp = sqrtl((long double)CP::var_p(p).v); long double xs[2] = {mp - 0.7L * sp, mp + 0.4L * sp}; long double r[2]; bool ok = true; __float128 scale = 0;
+        for (int i = 0; i < 2; i++) { long double xx = c.prec ? xs[i] : (long double)(double)xs[i]; long double den = ev(2, xx) * ev(0, xx); if (!(den > 1e-200L)) ok = false; r[i] = ev(1, xx) / den;
+          Q X(xx); Q d = X - CP::mean(); Q lik = exp(-(CP::n() * d * d) / (Q(2) * par(p, "sigma_d") * par(p, "sigma_d"))); Q R = CP::normal(X, CP::mean_p(p), CP::var_p(p)) / (lik * CP::normal(X, par(p, "m"), par(p, "sigma") * par(p, "sigma"))); scale += R.m / fabsq(R.v); }
+        if (ok) { Outcome o; o.label = "posterior/(likelyhood*prior) constant"; o.lib = r[0]; o.ref = Q(r[1]); long double rel = fabsl(r[0] - r[1]) / fabsl(r[1]); o.err = (double)((__float128)rel / eps / scale); o.status = o.err <= K ? 0 : 1; o.note = "ratio at two abscissae"; out.push_back(o); } }
+      { long double x = c.pt[0]; long double l = ev(2, x), ll = ev(3, x); if (l > 1e-200L) { Q d = Q(x) - CP::mean(); Q a = -(CP::n() * d * d) / (Q(2) * par(p, "sigma_d") * par(p, "sigma_d"));
+          Outcome o; o.label = "loglikelyhood=log(likelyhood)"; o.lib = ll; o.ref = Q(logl(l)); o.err = (double)((__float128)fabsl(ll - logl(l)) / eps / (2 * a.m + 2)); o.status = o.err <= K ? 0 : 1; out.push_back(o); } } };
     S.push_back(s);
   }
   return S;
